@@ -84,3 +84,19 @@ package influxql
 //@ func init@var:operatorMap
 //@   ensures [bitwise_operators_are_operators] (BITWISE_AND in operatorMap) && (BITWISE_OR in operatorMap) && (BITWISE_XOR in operatorMap)
 //@   ensures [arithmetic_and_comparison] (ADD in operatorMap) && (SUB in operatorMap) && (MUL in operatorMap) && (DIV in operatorMap) && (MOD in operatorMap) && (EQ in operatorMap) && (NEQ in operatorMap) && (LT in operatorMap) && (LTE in operatorMap) && (GT in operatorMap) && (GTE in operatorMap) && (AND in operatorMap) && (OR in operatorMap) && (EQREGEX in operatorMap) && (NEQREGEX in operatorMap)
+
+// ================================================================ C19: sub-queries of IN conditions need their own privileges
+//@ prop C19
+// A SELECT reads the sources of its FROM clause and the sources of every sub-query inside an IN condition of its WHERE
+// clause: the condition is walked and every IN condition met contributes the privileges its statement requires
+// (otherwise READ on one database is enough to read any other through  WHERE x IN (SELECT .. FROM other..m)).
+//@ func (*SelectStatement).RequiredPrivileges
+//@   requires s != nil
+//@   call WalkFunc
+//@     requires [condition_is_walked] arg0 == s.Condition
+//@ func (*SelectStatement).RequiredPrivileges$1
+//@   ghost asked bool = false
+//@   call (*SelectStatement).RequiredPrivileges
+//@     requires tagis(n, "*influxql.InCondition") && recv == as(n, "*influxql.InCondition").Stmt
+//@     set asked = true
+//@   ensures [in_subquery_privileges_collected] tagis(n, "*influxql.InCondition") && as(n, "*influxql.InCondition") != nil && as(n, "*influxql.InCondition").Stmt != nil && old(inErr) == nil ==> asked
